@@ -134,7 +134,11 @@ def leaf_strategy():
     rng = st.sampled_from(["index", "resSeq", "resid", "mass", "n_bonds", "chainid"]).flatmap(
         lambda k: st.tuples(st.just("range"), st.just(k), val(k), val(k), picks))
     rex = st.tuples(st.just("re"), st.sampled_from(["name", "resname", "element"]), st.sampled_from(REGEXES), picks)
-    return st.one_of(bool_leaf, num_cmp, str_cmp, in_list, rng, rex)
+    # a chain of two comparisons around one keyword, `3 < resSeq <= 7`: the conjunction of its links (as the generated source, and
+    # the documented expansion of `to` into `low <= x <= high`, say)
+    chain = st.sampled_from(["index", "resSeq", "resid", "mass", "n_bonds"]).flatmap(
+        lambda k: st.tuples(st.just("chain"), st.just(k), val(k), st.sampled_from(sorted(CMP)), st.sampled_from(sorted(CMP)), val(k), picks))
+    return st.one_of(bool_leaf, num_cmp, str_cmp, in_list, rng, rex, chain)
 
 
 def tree_strategy(max_depth):
@@ -237,6 +241,10 @@ def evaluate(t, a):
         return a[t[1]] in t[2]
     if k == "range":
         return t[2] <= a[t[1]] <= t[3]
+    if k == "chain":
+        rel = {"<": lambda u, w: u < w, "<=": lambda u, w: u <= w, "==": lambda u, w: u == w, "!=": lambda u, w: u != w,
+               ">=": lambda u, w: u >= w, ">": lambda u, w: u > w}
+        return rel[t[3]](t[2], a[t[1]]) and rel[t[4]](a[t[1]], t[5])
     if k == "re":
         return re.match(t[2], a[t[1]]) is not None
     if k == "not":
@@ -287,6 +295,8 @@ def render(t, full, alias):
         return "%s %s" % (pick(names[t[1]], picks[0]), " ".join(lit(v, picks[2]) for v in t[2])), "leaf"
     if k == "range":
         return "%s %s to %s" % (pick(names[t[1]], picks[0]), lit(t[2], 1), lit(t[3], 1)), "leaf"
+    if k == "chain":
+        return "%s %s %s %s %s" % (lit(t[2], 1), pick(CMP[t[3]], picks[1]), pick(names[t[1]], picks[0]), pick(CMP[t[4]], picks[1] + 1), lit(t[5], 1)), "cmp"
     if k == "re":
         return "%s =~ '%s'" % (pick(names[t[1]], picks[0]), t[2]), "cmp"
     p = t[-1] if isinstance(t[-1], int) else 0
